@@ -249,6 +249,8 @@ type worldOpts struct {
 	filter   *bool
 	// slowReplyMs: OnWriteExecutionEvent takes this much virtual time when the written frame answers a location report
 	slowReplyMs int
+	// keyFunc: service.WithKeyFunc (nil = the default, the phone number)
+	keyFunc func(*service.Message) (string, bool)
 }
 
 // startWorld must be called from thread 0 of an execution.
@@ -278,6 +280,9 @@ func (w *world) boot(o worldOpts) {
 	}
 	if o.filter != nil {
 		opts = append(opts, service.WithHasSubcontract(*o.filter))
+	}
+	if o.keyFunc != nil {
+		opts = append(opts, service.WithKeyFunc(o.keyFunc))
 	}
 	w.srv = service.New(opts...)
 	vs.MarkDaemonFrom(n)
